@@ -249,7 +249,17 @@ class C14(core.Prop):
             base(['join', 'inner', A, B, ['bin', '<=', ['col', 'A', 'x'], ['col', 'B', 'x']]], gt('B', 'z', 0)),
             base(['join', 'inner', A, B, ['bin', 'and', ['bin', '<=', ['col', 'A', 'x'], ['col', 'B', 'x']], gt('A', 'y', 2)]], None),
             base(['join', 'left', A, B, ['bin', 'and', ['bin', '<=', ['col', 'A', 'x'], ['col', 'B', 'x']], gt('A', 'y', 2)]], None),
+            # literals whose Python hashes collide (-1/-2) in the two arms of a disjunction over one column
+            base(inner, ['bin', 'or', ['bin', '<=', ['col', 'A', 'y'], ['lit', -2]], ['bin', '<=', ['col', 'A', 'y'], ['lit', -1]]]),
+            base(inner, ['bin', 'or', ['bin', '==', ['col', 'A', 'x'], ['lit', -1]], ['bin', '==', ['col', 'A', 'x'], ['lit', -2]]]),
+            # the same table with the same columns in two query blocks with different filters
+            ['set', 'union', ['query', A, {'sel': [['col', 'A', 'id'], ['col', 'A', 'y']], 'pre': gt('A', 'y', 3), 'grp': [], 'post': None, 'ord': [], 'rows': None}],
+             ['query', A, {'sel': [['col', 'A', 'id'], ['col', 'A', 'y']], 'pre': ['bin', '<', ['col', 'A', 'y'], ['lit', 1]], 'grp': [], 'post': None, 'ord': [], 'rows': None}]],
+            ['query', ['join', 'inner', ['ref', ['query', A, {'sel': [['col', 'A', 'id'], ['col', 'A', 'y']], 'pre': gt('A', 'y', 3), 'grp': [], 'post': None, 'ord': [], 'rows': None}], 'q0'],
+                       A, ['bin', '<=', ['elem', 'q0', 'id'], ['col', 'A', 'id']]],
+             {'sel': [['elem', 'q0', 'y'], ['col', 'A', 'y']], 'pre': None, 'grp': [], 'post': None, 'ord': [], 'rows': None}],
         ]
+        data['A'] = data['A'] + [{'id': 5, 'x': -1, 'y': -1, 's': 'b', 'b': False}, {'id': 6, 'x': -2, 'y': -2, 's': 'a', 'b': True}]
         return [{'statement': s, 'tables': ['A', 'B'], 'data': data} for s in stmts]
 
     def cases(self, rng, tier):
@@ -258,6 +268,34 @@ class C14(core.Prop):
         for _ in range(n):
             stmt, tables = self._statement(rng)
             out.append({'statement': stmt, 'tables': tables, 'data': self._data(rng, tables)})
+        for _ in range(max(10, n // 15)):
+            t = rng.choice(['A', 'B'])
+            cols = [f for f, k in cols_of([t]) if k == 'int']
+            sel = rng.sample(cols, 2)
+            r = rng.random()
+            if r < 0.4:
+                # two query blocks over the same table and columns with different filters (set operation)
+                mk = lambda: ['query', ['table', t], {'sel': list(sel), 'pre': ['bin', rng.choice(['<', '>', '<=', '>=']), rng.choice(sel), ['lit', rng.randint(-1, 3)]],
+                                                      'grp': [], 'post': None, 'ord': [], 'rows': None}]
+                stmt = ['set', rng.choice(['union', 'union', 'intersection', 'difference']), mk(), mk()]
+            elif r < 0.7:
+                # a filtered sub-query over the table joined with the table itself (same columns in both blocks)
+                sub = ['ref', ['query', ['table', t], {'sel': list(sel), 'pre': ['bin', rng.choice(['<', '>']), sel[0], ['lit', rng.randint(0, 3)]], 'grp': [], 'post': None,
+                                                          'ord': [], 'rows': None}], 'q0']
+                outer = ['table', t]
+                pair = [sub, outer] if rng.random() < 0.5 else [outer, sub]
+                stmt = ['query', ['join', 'inner', pair[0], pair[1], ['bin', '<=', ['elem', 'q0', sel[0][2]], sel[0]]],
+                        {'sel': [['elem', 'q0', sel[1][2]], sel[1]], 'pre': None, 'grp': [], 'post': None, 'ord': [], 'rows': None}]
+            else:
+                # a disjunction / conjunction over one column whose arms differ in a literal only (incl. hash-colliding -1 / -2)
+                a, b = rng.choice([(-1, -2), (-2, -1), (0, 1), (2, 3), (-1, 0)])
+                op = rng.choice(['<=', '>=', '==', '<'])
+                col = rng.choice(cols)
+                pre = ['bin', rng.choice(['or', 'or', 'and']), ['bin', op, col, ['lit', a]], ['bin', op, col, ['lit', b]]]
+                if rng.random() < 0.4:
+                    pre = ['bin', 'or', ['not', pre[2]], ['not', pre[3]]]
+                stmt = ['query', ['table', t], {'sel': list(sel), 'pre': pre, 'grp': [], 'post': None, 'ord': [], 'rows': None}]
+            out.append({'statement': stmt, 'tables': [t], 'data': self._data(rng, [t])})
         return out
 
     def run_impl(self, cases):
@@ -357,11 +395,18 @@ class C14(core.Prop):
     def nontrivial(self, case, obs):
         stmt = case['statement']
         conds = statement_features(stmt, joins_only=True)
+        if stmt[0] != 'query':
+            return True
         return len(case['tables']) >= 2 and (stmt[2].get('pre') is not None or any(not (c[0] == 'bin' and c[1] == '==') for c in conds))
 
     def shrink(self, case):
         out = []
         stmt = case['statement']
+        if stmt[0] != 'query':
+            for t, rows in case['data'].items():
+                if len(rows) > 1:
+                    out.append({**case, 'data': {**case['data'], t: rows[:-1]}})
+            return out
         q = stmt[2]
         for key in ('pre', 'post'):
             if q.get(key) is not None:
@@ -391,10 +436,10 @@ class C14(core.Prop):
             for x in sources_in(c['statement']):
                 if x[0] == 'join':
                     dist['join_kinds'][x[1]] = dist['join_kinds'].get(x[1], 0) + 1
-            dist['with_where'] += c['statement'][2].get('pre') is not None
+            dist['with_where'] += c['statement'][0] == 'query' and c['statement'][2].get('pre') is not None
             dist['with_reference'] += any(x[0] == 'ref' and x[1][0] == 'table' for x in sources_in(c['statement']))
             dist['with_subquery'] += any(x[0] == 'ref' and x[1][0] == 'query' for x in sources_in(c['statement']))
-            dist['grouped'] += bool(c['statement'][2].get('grp'))
+            dist['grouped'] += c['statement'][0] == 'query' and bool(c['statement'][2].get('grp'))
             dist['errors'] += 'error' in o
             dist['modelled_in_coq'] += bool(self.coq_cases(c, o))
             for call in o.get('calls', []):
